@@ -61,11 +61,12 @@ pub tracked struct QCtx {
     pub ghost v_order: bool,        // every queue effect so far kept the FIFO discipline
     pub ghost v_conserve: bool,     // ... and neither lost nor duplicated a job
     pub ghost v_take: bool,         // as a non-holder, this thread only ever took the run token from a free state and never changed a held state
+    pub ghost v_hand: bool,         // as the holder, this thread never gave the queue up while a popped job was still in its hand
     pub ghost v_give: bool,         // as the holder, this thread only parked / released the queue the permitted ways (and never with a job in hand)
     pub ghost v_wake: bool,         // no section parked the queue over a remembered wake-up
 }
 
-pub open spec fn valid(c: QCtx) -> bool { c.v_order && c.v_conserve && c.v_take && c.v_give && c.v_wake }
+pub open spec fn valid(c: QCtx) -> bool { c.v_order && c.v_conserve && c.v_take && c.v_hand && c.v_give && c.v_wake }
 
 /// the context of a thread that is not involved with the queue
 pub open spec fn fresh(c: QCtx) -> bool {
@@ -128,6 +129,7 @@ pub open spec fn step_state(c: QCtx, a: JobQueueCore, b: JobQueueCore) -> QCtx {
         else if s is AwokenWhileRunning && t is Running { c }
         else if s is Running && t is WaitingForUnpark { QCtx { parked: true, ..c } }
         else if s is AwokenWhileRunning && (t is WaitingForUnpark || (t is WaitingForWake && !c.latching) || (t is WaitingForPoll && !c.latching)) { QCtx { v_wake: false, ..c } }
+        else if c.current is Some && (t is Idle || t is WaitingForWake || t is WaitingForPoll) { QCtx { holds: false, v_hand: false, ..c } }
         else if c.current is None && t is Idle { QCtx { holds: false, ..c } }
         else if c.current is None && t is WaitingForWake && (s is Running || c.latching) { QCtx { holds: false, latch_parked: c.latching, ..c } }
         else if c.current is None && t is WaitingForPoll && c.latching { QCtx { holds: false, latch_parked: true, poll_parked: true, ..c } }
